@@ -2,14 +2,12 @@
 (* Constants of the exhaustive runs of Auction that a .cfg file cannot express.                 *)
 EXTENDS Auction
 
-C(m, k) == [min |-> m, key |-> k, grace |-> 0]
+C(m, k) == [min |-> m, key |-> k, grace |-> 0, sp |-> "none"]
+CS(m, k, sp) == [min |-> m, key |-> k, grace |-> 0, sp |-> sp]
 \* single auctions: assignments that together give every relay flag (minimum 0 / 2, key unknown / from
 \* the configuration / from the relay client) next to every other
-MCProvMid == { <<FALSE, TRUE, FALSE>> }
-MCProvNone3 == { <<FALSE, FALSE, FALSE>> }
-MCProvNone2 == { <<FALSE, FALSE>> }
-MCProvSecond == { <<FALSE, FALSE>>, <<FALSE, TRUE>> }
-MCCfgOne == { <<C(0, "config"), C(2, "none"), C(0, "none")>> }
+\* (the key of the second relay is the one spelled in its address)
+MCCfgOne == { <<C(0, "config"), CS(2, "none", "K1"), C(0, "none")>> }
 MCCfgSmall == { <<C(0, "config"), C(2, "config"), C(0, "none")>>,
                 <<C(2, "none"), C(0, "config"), C(2, "config")>> }
 \* bids with at most one eligibility defect (the exhaustive thorough run uses Answers: all combinations)
@@ -31,6 +29,20 @@ MCAnswersHist == {a \in Bids : Defects(a) = 0} \cup {a \in Bids : a.val = MCTop 
 \* overlap: two auctions in progress at once
 MCCfgOverlap == { <<C(0, "none"), C(0, "config")>>, <<C(2, "none"), C(0, "none")>> }
 MCAnswersOverlap == {a \in Bids : Defects(a) = 0} \cup {NoBidAnswer}
+
+\* the client cache (round 5): the SAME relay location under the spellings of its address (no key / K1 / K2 in the
+\* user-information part), the key in the relay configuration or not, in every order of first use - by an auction
+\* or by another user of the cache (FetchSet); bids signed with K1, with K2, and unverifiable ones
+MCCfgClients == { <<CS(0, "none", s1), CS(0, "none", s2)>> : s1 \in Spellings, s2 \in {"none", "K1"} }
+                \cup { <<CS(0, "config", "none"), C(0, "none")>>, <<CS(0, "config2", "K1"), C(0, "none")>> }
+MCFetchFirst == { <<1, "none">>, <<1, "K1">>, <<1, "K2">>, <<2, "K1">> }
+MCAnswersClients == {a \in Bids : Defects(a) = 0 /\ a.bld = "std"}
+                    \cup {a \in Bids : a.bld = "std" /\ a.sig # "valid" /\ ~a.feeZero /\ a.tsOk}
+                    \cup {NoBidAnswer}
+\* control: every relay location is written ONE way on the instance (relay 1 with K1 in its address, relay 2
+\* without a key), everything else varies
+MCCfgOneSpelling == { <<CS(m, k, "K1"), CS(2 - m, "none", "none")>> : m \in {0, 2}, k \in {"none", "config", "config2"} }
+MCFetchOneSpelling == { <<1, "K1">>, <<2, "none">> }
 
 \* histories use the auction indices and the keys in order (both are interchangeable)
 KeysInOrder == \A i \in Auc : st'[i] # "idle" => (key'[i] = i /\ \A j \in Auc : j < i => st'[j] # "idle")
